@@ -20,6 +20,7 @@ RULE = ('(a) IR-level store/load histories through eval_instr/eval_expr: stores 
         '(a), or a memory access / a rep prefix (b, c).')
 RULE += ' Round 6: sequences that cut one value into many windows: push/popf/setcc, pushf/pop, sahf, lahf on loaded flag images; bytes and words of one register or dword combined with each other.'
 RULE += ' Round 7: one cell through differently built addresses: a pointer loaded from memory, adjusted, its slot overwritten, overlapping stores of two widths through it (48 sequences); one sum formed from two register pairs, by lea, by add, scaled, through zero/sign extensions.'
+RULE += ' Round 8: stored values made of several parts (a register after a byte move into it, the flags image, a value loaded from partly written memory) whose low part is overwritten by a narrower store and read back whole.'
 ASSUMPTIONS = ['irsem is the meaning of the IR; memory is flat (segment annotations do not take part in addresses)',
                'valuations keep distinct symbolic bases >= 1 MiB apart and away from constant addresses (no aliasing outside the statement)',
                'results under uninterpreted operators or architecturally undefined values are not compared']
